@@ -934,6 +934,10 @@ class CeiloChunk(AbstractChunk):
         # Get ready to add the layering info to the data
         self.data.loc[:, 'layer_id'] = None
 
+        # The ids of the sub-layers must not clash with any of the (inherited) group ids.
+        # Start them at 100, unless the group ids already reach that high.
+        id_offset = int(max(100, self.groups['cluster_id'].max() + 1)) if len(self.groups) else 100
+
         # Loop through every group, and look for sub-layers in it ...
         for ind in range(len(self.groups)):
 
@@ -988,7 +992,7 @@ class CeiloChunk(AbstractChunk):
             if ncomp > 1:
                 self.data.loc[self.data.loc[:, 'group_id'] ==
                               self._groups.at[ind, 'cluster_id'], 'layer_id'] = \
-                    100+10*ind+sub_layers_id
+                    id_offset+10*ind+sub_layers_id
 
         # Deal with the points that have not been assigned a layer id yet
         to_fill = self.data['layer_id'].isna()
